@@ -86,6 +86,12 @@ class _FieldOfDressed:
         else:
             self.content = None
             setattr(container._xobject, self.name, value)
+            if isinstance(
+                getattr(container._XoStruct, self.name).ftype, Ref
+            ) and hasattr(container, "_dressed_" + self.name):
+                # the reference now denotes something else (or nothing): the
+                # dressed view of the previous referent is not this field
+                delattr(container, "_dressed_" + self.name)
 
 
 class JEncoder(json.JSONEncoder):
